@@ -152,16 +152,58 @@ STATES = ["mixed", "pure"]
 
 
 # ------------------------------------------------------------------------------------------------
+# LAPACK's divide-and-conquer SVD (gesdd, used by numpy.linalg.svd inside tensornetwork) occasionally fails with
+# "SVD did not converge" on the highly rank-deficient matrices that degenerate coupling operators produce with
+# unique=False.  The failure depends on last-bit differences of the input (memory alignment of BLAS calls): the very
+# same call fails in ~1 of 4 executions (measured: d=4, eigenvalues (2,2,2,-1), MeanFieldTempo; no NaN/inf in the
+# matrix, gesvd converges).  It is not the subject of C05/C06, so such a failure is retried (with a changed heap
+# layout); only a failure that persists SVD_RETRIES times is handed on as an exception.
+
+SVD_RETRIES = 8
+RETRIES = {"n": 0}
+_JUNK = []
+
+
+def robust(fn, *args, **kw):
+    for k in range(SVD_RETRIES + 1):
+        try:
+            return fn(*args, **kw)
+        except np.linalg.LinAlgError as ex:
+            if "SVD did not converge" not in str(ex) or k == SVD_RETRIES:
+                raise
+            RETRIES["n"] += 1
+            _JUNK.append(np.empty(4099 * (k + 1) + 17))
+
+
+def take_retries():
+    n = RETRIES["n"]
+    RETRIES["n"] = 0
+    return n
+
+
+# ------------------------------------------------------------------------------------------------
 # runners: every one returns {"times", "states" (N+1, d, d) in the basis V, "fields" or None}
 
-def run_tempo(op, d, v, syskind, statekind, mem, unique, eps):
+def run_tempo(*args):
+    return robust(_run_tempo, *args)
+
+
+def build_pt(*args):
+    return robust(_build_pt, *args)
+
+
+def run_mf(*args):
+    return robust(_run_mf, *args)
+
+
+def _run_tempo(op, d, v, syskind, statekind, mem, unique, eps):
     bath = oq.Bath(op, correlations())
     t = oq.Tempo(system(syskind, d, v), bath, parameters(mem, eps), state(statekind, d, v), START, unique=unique)
     dyn = t.compute(END, progress_type="silent")
     return {"times": np.array(dyn.times), "states": np.array(dyn.states), "fields": None}
 
 
-def build_pt(op, mem, unique, eps):
+def _build_pt(op, mem, unique, eps):
     bath = oq.Bath(op, correlations())
     return oq.pt_tempo_compute(bath, START, END, parameters(mem, eps), unique=unique, progress_type="silent")
 
@@ -172,7 +214,7 @@ def run_pt(pt, d, v, syskind, statekind):
     return {"times": np.array(dyn.times), "states": np.array(dyn.states), "fields": None}
 
 
-def run_mf(op, d, v, syskind, statekind, mem, unique, eps):
+def _run_mf(op, d, v, syskind, statekind, mem, unique, eps):
     bath = oq.Bath(op, correlations())
     t = oq.MeanFieldTempo(mean_field_system(syskind, d, v), [bath], parameters(mem, eps), [state(statekind, d, v)],
                           FIELD0, start_time=START, unique=unique)
